@@ -10,7 +10,7 @@ def TargetsLt (s : State) : Prop := ∀ x a, getLive s.anns x = some a → ∀ t
 
 theorem TargetsLt.of_sub {s s' : State} (h : TargetsLt s) (hs : Sub s s') : TargetsLt s' := by
   intro x a' hx t ht
-  obtain ⟨a, ha, hk⟩ := hs x a' hx
+  obtain ⟨a, ha, _, _, hk⟩ := hs x a' hx
   exact h x a ha t (hk _ ht)
 
 theorem DependsOn.le {s : State} (ht : TargetsLt s) {d y : Nat} (hd : DependsOn s d y) : d ≤ y := by
